@@ -19,8 +19,11 @@ code -> spec: seeded random headers from a wider grammar (1..5 ranges, more kind
               code first (kinds incl. random edits of the supported ones, random (content type, Accept) requests);
               the recorded observations are judged by specs/TraceNegotiation.tla (one TLC run per batch).
 
-Excluded in the generators because the property is silent on them: q=0 (RFC: "not acceptable"; forml ranks it last),
-malformed q values / empty ranges (trailing commas) / quoted-string parameter values, duplicate option keys inside one
+q=0 is the lowest quality: the parse clause is demanded for it like for any other value (behind every positive range,
+ties in header order; all headers of <= 3 ranges over QsZero by TLC + the random headers); for the chosen encoder the
+property text (a zero-weighted range is the last resort) and RFC 7231 (q=0 = "not acceptable") differ only when no positive
+range is supported: both outcomes are allowed there (EncoderSetZ of Negotiation.tla, exported as `encz`).
+Excluded in the generators because the property is silent on them: malformed q values / empty ranges (trailing commas) / quoted-string parameter values, duplicate option keys inside one
 range, wildcards on the concrete side of match and in a Content-Type, case variations of option VALUES (compared
 verbatim), non-ASCII.  Only glob '*' is used in kinds (no '?', '['); every kind is of the form type "/" subtype.
 A request without an Accept header: the property does not say what the response is encoded in (as-is: the encoding of
@@ -364,10 +367,12 @@ def judge(exp, obs, encoders, full):
         bad.append(('parse', f'parsed order {show(obs["parsed"])} expected {show(exp["parsed"])}'
                     + (f' ({obs["error"]} raised)' if 'error' in obs else '')))
         return bad, drift
-    allowed = [key(encoders[e - 1]) for e in exp['enc']]
+    # the admissible encoders; `encz` = the same with zero-weighted ranges read as "not acceptable" (RFC 7231) - differs
+    # from `enc` only for headers whose positive ranges are all unsupported
+    readings = [[key(encoders[e - 1]) for e in exp[f]] for f in ('enc', 'encz') if f in exp]
 
     def enc_ok(out):
-        return key(out) == key(UNSUP) if not allowed else key(out) in allowed
+        return any(key(out) == key(UNSUP) if not allowed else key(out) in allowed for allowed in readings)
 
     if not enc_ok(obs['enc']):
         bad.append(('encoder', f'get_encoder gave {show([obs["enc"]])}, allowed {show([encoders[e - 1] for e in exp["enc"]]) or "Unsupported"}'))
@@ -419,6 +424,7 @@ def replay_model(chk, real, res, rnd, spellings, stats):
         if encoders is None:
             encoders = stats['encoders']
         states += 1
+        stats['zero_last'] += any(r['q'] == 0 for r in exp['hdr'])
         failed = False
         for n in range(spellings):
             text = render(exp['hdr'], None if n == 0 else rnd)
@@ -472,7 +478,7 @@ KINDS = [('*', '*'), ('application', '*'), ('application', 'json'), ('text', 'cs
          ('text', 'plain'), ('application', 'xml'), ('image', '*'), ('*', 'json'), ('*', 'csv')]
 CONCRETE = [('application', 'json'), ('text', 'csv'), ('foo', 'bar'), ('text', 'plain'), ('application', 'xml')]
 FORMATS = ['pandas-records', 'pandas-split', 'pandas-columns', 'pandas-index', 'pandas-table', 'pandas-values', 'bogus']
-QPOOL = [1000, 900, 800, 750, 500, 330, 100, 10, 1]
+QPOOL = [1000, 900, 800, 750, 500, 330, 100, 10, 1, 0]
 
 
 SUPPORTED = [('application', 'json'), ('text', 'csv')]
@@ -531,7 +537,7 @@ def random_header(rnd):
         t, s = rnd.choice(CONCRETE[:3] if rnd.random() < 0.8 else CONCRETE)
         if rnd.random() < 0.3:
             t, s = edited_kind(rnd, stars=False)
-        return [{'t': t, 's': s, 'opts': random_opts(rnd, True), 'q': rnd.choice([NOQ, NOQ, 1000, 500])}]
+        return [{'t': t, 's': s, 'opts': random_opts(rnd, True), 'q': rnd.choice([NOQ, NOQ, 1000, 500, 0])}]
     palette = [NOQ] + rnd.sample(QPOOL, rnd.randint(1, 3)) + ([rnd.randint(1, 1000)] if rnd.random() < 0.3 else [])
     hdr = []
     near = rnd.random() < 0.25  # a header whose kinds are (mostly) near misses / inner wildcards of the supported ones
@@ -577,7 +583,7 @@ def random_request(rnd):
                 (t, s), opts = rnd.choice(SUPPORTED), [['format', 'bogus']] + ([['version', '1']] if rnd.random() < 0.3 else [])
             else:
                 (t, s), opts = edited_kind(rnd), random_opts(rnd)
-            hdr.append({'t': t, 's': s, 'opts': opts, 'q': rnd.choice([NOQ, NOQ, 900, 800, 500])})
+            hdr.append({'t': t, 's': s, 'opts': opts, 'q': rnd.choice([NOQ, NOQ, 900, 800, 500, 0])})
         return ctype, hdr
     return ctype, random_header(rnd)
 
@@ -605,20 +611,23 @@ def strip_q(rng):
 
 def random_table(rnd):
     """Tables on which CSV is expected to be lossless: CSV is untyped, so strings that read as numbers / booleans /
-    missing-value markers, empty strings, missing values and empty tables are excluded; floats are dyadic."""
+    missing-value markers, empty strings, missing values and empty tables are excluded; floats are dyadic.  Column names
+    (part of the table) are distinct non-empty texts, with blanks at either end / inside, separators and quotes."""
     words = ['ab', 'x y', 'q,r', ' pad ', 'he said "hi"', 'Zed', 'a;b', 'semi:colon', "it's", 'tab\there']
     gens = {'int': lambda: rnd.randint(-1000, 1000), 'float': lambda: rnd.randint(-4000, 4000) / 8 + 0.125,
             'str': lambda: rnd.choice(words), 'bool': lambda: rnd.random() < 0.5}
     kinds = [rnd.choice(list(gens)) for _ in range(rnd.randint(1, 4))]
     rows = [[gens[k]() for k in kinds] for _ in range(rnd.randint(1, 6))]
-    return kinds, rows
+    heads = ['c', 'c', 'c', ' lead', 'trail ', 'in ner', 'q,r', 'say "hi"', "it's", 'Zed', 'a;b']
+    names = [rnd.choice(heads) + str(i) for i in range(len(kinds))]   # (the index keeps them distinct)
+    return kinds, rows, names
 
 
-def csv_roundtrip(real, kinds, rows):
+def csv_roundtrip(real, kinds, rows, names=None):
     """Encode with the CSV encoder, decode with the CSV decoder (both obtained by negotiation); cells dictionary-encoded."""
     from forml.io import dsl, layout
     kindmap = {'int': dsl.Integer(), 'float': dsl.Float(), 'str': dsl.String(), 'bool': dsl.Boolean()}
-    names = [f'c{i}' for i in range(len(kinds))]
+    names = names or [f'c{i}' for i in range(len(kinds))]
     schema = dsl.Schema.from_fields(*(dsl.Field(kindmap[k], name=n) for k, n in zip(kinds, names)))
     accept = layout.Encoding.parse('foo/bar;q=0.9, text/*;q=0.5')
     payload = real.app.respond(layout.Outcome(schema, rows), accept, None)
@@ -677,13 +686,13 @@ def trace_validation(chk, real, rnd, pool):
         reqtexts.append(texts_ + (via_rest,))
     tables, tabmeta = [], []
     for _ in range(n_tab):
-        kinds, rows = random_table(rnd)
+        kinds, rows, names = random_table(rnd)
         try:
-            obs = csv_roundtrip(real, kinds, rows)
+            obs = csv_roundtrip(real, kinds, rows, names)
         except Exception as exc:  # pylint: disable=broad-except
             obs = {'src': [[1]], 'out': [[2]], 'encoding': f'raised {type(exc).__name__}: {exc}'}
         tables.append({'src': obs['src'], 'out': obs['out']})
-        tabmeta.append({'kinds': kinds, 'rows': rows, 'encoding': obs['encoding']})
+        tabmeta.append({'kinds': kinds, 'rows': rows, 'names': names, 'encoding': obs['encoding']})
     # ---- corrupted observations (binding self-test): each must be rejected by TLC
     csv = {'t': 'text', 's': 'csv', 'opts': []}
     jsn = {'t': 'application', 's': 'json', 'opts': []}
@@ -693,6 +702,8 @@ def trace_validation(chk, real, rnd, pool):
     corrupted = [
         ('tie_order_swapped', 0, dict(blank_out, hdr=[dict(csv, q=500), dict(jsn, q=500)], parsed=[jsn, csv], enc=csv)),
         ('ascending_order', 0, dict(blank_out, hdr=[dict(csv, q=100), dict(jsn, q=NOQ)], parsed=[csv, jsn], enc=csv)),
+        ('zero_weight_ranked_as_default', 0, dict(blank_out, hdr=[dict(csv, q=0), dict(jsn, q=800)], parsed=[csv, jsn], enc=csv)),
+        ('zero_weight_beats_supported_range', 1, dict(blank_out, hdr=[dict(csv, q=0), dict(jsn, q=800)], parsed=[jsn, csv], enc=csv)),
         ('less_preferred_encoder', 1, dict(blank_out, hdr=[dict(csv, q=NOQ), dict(jsn, q=500)], parsed=[csv, jsn], enc=rec)),
         ('unsupported_swallowed', 1, dict(blank_out, hdr=[{'t': 'foo', 's': 'bar', 'opts': [], 'q': NOQ}],
                                         parsed=[{'t': 'foo', 's': 'bar', 'opts': []}], enc=csv)),
@@ -713,6 +724,8 @@ def trace_validation(chk, real, rnd, pool):
         ('request_encoding_served_despite_accept', 0, {'ct': csv, 'accept': [dict(foo, q=NOQ)], 'reply': csv, 'receive': 1}),
         ('request_encoding_preferred_to_accept', 0, {'ct': csv, 'accept': [dict(foo, q=NOQ), dict(spl, q=500)], 'reply': csv,
                                                     'receive': NOT_OBSERVED}),
+        ('request_zero_weight_beats_supported_range', 0, {'ct': csv, 'accept': [dict(csv, q=0), dict(spl, q=500)], 'reply': csv,
+                                                         'receive': NOT_OBSERVED}),
         ('request_decoder_from_accept', 1, {'ct': foo, 'accept': [dict(csv, q=NOQ)], 'reply': csv, 'receive': 1}),
     ]
     bad_table = {'src': [[1, 2], [3, 4], [5, 6]], 'out': [[1, 2], [3, 4], [5, 7]]}  # one cell came back different
@@ -779,8 +792,9 @@ def trace_validation(chk, real, rnd, pool):
         for i, meta in enumerate(tabmeta, start=1):
             if not tabs[i][1]:
                 aux_bad += 1
-                chk.fail(f'csv round trip: table kinds={meta["kinds"]} rows={meta["rows"]} came back different ({meta["encoding"]})',
-                         {'kind': 'table', 'kinds': meta['kinds'], 'rows': meta['rows']})
+                chk.fail(f'csv round trip: table columns={meta["names"]} kinds={meta["kinds"]} rows={meta["rows"]} came back '
+                         f'different ({meta["encoding"]})',
+                         {'kind': 'table', 'kinds': meta['kinds'], 'rows': meta['rows'], 'names': meta['names']})
             else:
                 chk.validated()
         chk.selftest('trace_roundtrip_corrupted_cell', not tabs[len(tables) + 1][1])
@@ -799,7 +813,7 @@ def main(chk):
     rnd = random.Random(chk.seed)
     tmp = os.getcwd()
     real = Real()
-    stats = {'drift': 0, 'headers': 0, 'pairs': 0, 'encoders': None, 'sampled': set(), 'requests': 0, 'rest': 0}
+    stats = {'drift': 0, 'headers': 0, 'pairs': 0, 'encoders': None, 'sampled': set(), 'requests': 0, 'rest': 0, 'zero_last': 0}
     acts = ['AddDefault', 'AddWeighted']
     spellings = 3 if chk.quick else 6
     workers = int(os.environ.get('VERIF_WORKERS') or 8)  # TLC workers of the exhaustive runs
@@ -824,6 +838,11 @@ def main(chk):
                                   export=2, invariants=REQ_INVARIANTS, spec='RSpec',
                                   more=' CtKinds <- CtKindsReq\n CtOpts <- CtOptsReq\n'),
                           require=['RAddDefault', 'RAddWeighted'], workers=2 if chk.quick else 4)
+    # the lowest quality (q=0) next to middle / highest / default ones: all headers of <= 3 ranges
+    zero_run = pool.submit(chk.tlc, 'Negotiation',
+                           cfg_neg(os.path.join(tmp, 'zero.cfg'), 3, 'KindsZero' if chk.quick else 'KindsSmall',
+                                   'OptsNone' if chk.quick else 'OptsSmall', 'QsZero', export=2, invariants=INVARIANTS + ' ZeroLast'),
+                           require=acts, workers=2)
     swapped_run = pool.submit(chk.tlc, 'Negotiation',
                               cfg_neg(os.path.join(tmp, 'swapped.cfg'), 2, 'KindsSmall', 'OptsSmall', 'QsSmall',
                                       rule='encoder-outer', export=0), expect_ok=False, workers=2, coverage=False)
@@ -845,6 +864,12 @@ def main(chk):
     if near != res.distinct - 1 or stats['pairs'] == pairs:
         raise tlc.MachineryError(f'Negotiation export (near kinds) incomplete: {near} of {res.distinct - 1} states')
     exported += near
+    # ---- 3b. zero-weighted ranges anywhere in headers of 2-3 ranges
+    res = zero_run.result()
+    zeros = replay_model(chk, real, res, rnd, spellings, stats)
+    if zeros < 1000 or not stats['zero_last']:
+        raise tlc.MachineryError(f'Negotiation export (zero weights) incomplete: {zeros} states, {stats["zero_last"]} with q=0')
+    exported += zeros
     # ---- 4. the request level: every content type x every Accept header of <= 2 (thorough: 3) ranges, served
     res = req_run.result()
     served = replay_requests(chk, real, res, rnd, stats)
@@ -869,7 +894,7 @@ def main(chk):
     chk.selftest('model_refutes_encoder_outer_loop', res.violated == 'ImplEncoderRefines')
     # ---- 8. the python-side comparison rejects corrupted observations of the real code
     exp = {'hdr': [], 'parsed': [{'t': 'text', 's': 'csv', 'opts': []}, {'t': 'application', 's': 'json', 'opts': []}],
-           'enc': [7], 'ienc': 7, 'conc': True, 'dec': [8], 'idec': 8}
+           'enc': [7], 'encz': [7], 'ienc': 7, 'conc': True, 'dec': [8], 'idec': 8}
     good = {'parsed': exp['parsed'], 'enc': exp['parsed'][0], 'dec': 8, 'respond': exp['parsed'][0], 'receive': 1}
     if judge(exp, good, stats['encoders'], True)[0]:
         raise tlc.MachineryError(f'self-test baseline rejected: {judge(exp, good, stats["encoders"], True)}')
@@ -877,7 +902,13 @@ def main(chk):
     chk.selftest('replay_rejects_other_encoder', bool(judge(exp, dict(good, enc=stats['encoders'][0]), stats['encoders'], True)[0]))
     chk.selftest('replay_rejects_other_decoder', bool(judge(exp, dict(good, dec=7), stats['encoders'], True)[0]))
     chk.selftest('replay_rejects_swallowed_unsupported',
-                 bool(judge(dict(exp, enc=[], ienc=0), good, stats['encoders'], True)[0]))
+                 bool(judge(dict(exp, enc=[], encz=[], ienc=0), good, stats['encoders'], True)[0]))
+    lone = dict(exp, encz=[])  # `text/csv;q=0` alone: CSV (last resort) and the error (not acceptable) both pass, nothing else
+    refused = dict(good, enc=UNSUP, respond=UNSUP)
+    if judge(lone, good, stats['encoders'], True)[0] or judge(lone, refused, stats['encoders'], True)[0]:
+        raise tlc.MachineryError('self-test baseline (lone zero-weighted range) rejected')
+    chk.selftest('replay_rejects_other_encoder_for_zero_weight',
+                 bool(judge(lone, dict(good, enc=stats['encoders'][0]), stats['encoders'], True)[0]))
     exp = {'judged': True, 'enc': [], 'dec': [8]}  # text/csv sent, only foo/bar accepted
     good = {'reply': UNSUP, 'receive': 1, 'status': 415}
     if judge_request(exp, good, stats['encoders'])[0]:
@@ -891,11 +922,15 @@ def main(chk):
 
     real.close()
     chk.extra['spec_to_code'] = {'headers_exported_by_tlc': exported, 'header_spellings_run': stats['headers'],
-                                 'headers_over_near_kinds': near, 'requests_exported_by_tlc': served,
+                                 'headers_over_near_kinds': near, 'headers_with_zero_weights_domain': zeros,
+                                 'headers_holding_a_zero_weight': stats['zero_last'], 'requests_exported_by_tlc': served,
                                  'requests_served': stats['requests'], 'requests_via_rest_route': stats['rest'],
                                  'match_pairs': stats['pairs'], 'spellings_per_header': spellings}
     chk.extra['impl_model_drift'] = {'choices_not_predicted_by_first_in_table_rule': stats['drift'] + drift}
-    chk.assume('q=0, malformed q, empty ranges, quoted-string values, duplicate option keys in one range and wildcards in a '
+    chk.assume('q=0 is ordered as the lowest quality (demanded); a zero-weighted range may either serve as the last resort '
+               '(property text, as-is) or count as not acceptable (RFC 7231): with no supported positive range both the '
+               'encoder it names and the unsupported-encoding error are accepted')
+    chk.assume('malformed q, empty ranges, quoted-string values, duplicate option keys in one range and wildcards in a '
                'Content-Type / on the concrete side of match are outside the property (excluded in the generators)')
     chk.assume('a kind is type "/" subtype; the kind of a pattern is a glob over that text in which only "*" is special')
     chk.assume('a request without an Accept header: the encoding of the response is not judged (as-is default = the '
@@ -909,7 +944,8 @@ def main(chk):
                'first-in-table choice of the code is only tracked as drift')
     chk.assume('JSON decoders cannot read payloads with the installed pandas 3.0: Generic.receive is judged only on '
                'Unsupported vs not Unsupported; the codec round trip is run on the CSV pair only (auxiliary, lossless '
-               'table domain: ints, dyadic floats, booleans, non-numeric non-empty strings, >= 1 row)')
+               'table domain: ints, dyadic floats, booleans, non-numeric non-empty strings, >= 1 row, distinct non-empty '
+               'column names)')
 
 
 def replay(chk, path):
@@ -928,7 +964,7 @@ def replay(chk, path):
         print('observed now:', got, 'expected', rep['m'])
         return 1 if (got != rep['m'] if rep['m'] is not None else not isinstance(got, bool)) else 0
     if rep['kind'] == 'table':
-        obs = csv_roundtrip(real, rep['kinds'], rep['rows'])
+        obs = csv_roundtrip(real, rep['kinds'], rep['rows'], rep.get('names'))
         print('observed now:', obs)
         return 1 if obs['src'] != obs['out'] else 0
     if rep['kind'] == 'request':
